@@ -1917,7 +1917,7 @@ async fn d47_l0_stall_is_never_lifted_when_another_level_scores_higher() {
 		tokio::time::sleep(std::time::Duration::from_millis(300)).await;
 	}
 	println!("D47 tables per level after the two flush wake-ups: {:?}", counts(&tree));
-	assert!(counts(&tree)[0] >= 2, "precondition: L0 is still at the stall threshold (the wake-ups went to L1)");
+	// (on the unrepaired tree L0 is still at the stall threshold here: the wake-ups went to L1)
 	let mut tx = tree.begin().unwrap();
 	tx.set(b"z", b"v").unwrap();
 	let r = tokio::time::timeout(std::time::Duration::from_secs(5), tx.commit()).await;
